@@ -84,3 +84,31 @@ func VerifC10_RoundTrip() {
 	}
 	zzverif.Reach("roundtrip")
 }
+
+// one instruction with a fully symbolic opcode and one of 7 boundary operands,
+// over a pool of 0, 1 or 2 constants: constant indices equal to the pool size,
+// jump targets and counts at every boundary
+func VerifC10_DecompileOneInstr() {
+	buf := append([]byte{}, zzHeader...)
+	switch zzverif.Choice("pool", 3) {
+	case 0:
+		buf = append(buf, 0, 0, 0, 0)
+	case 1:
+		buf = append(buf, 1, 0, 0, 0)
+		buf = append(buf, 0x01, 7, 0, 0, 0, 0, 0, 0, 0)
+	default:
+		buf = append(buf, 2, 0, 0, 0)
+		buf = append(buf, 0x01, 7, 0, 0, 0, 0, 0, 0, 0)
+		buf = append(buf, 0x04, 1, 0, 0, 0, 'x')
+	}
+	buf = append(buf, 5, 0, 0, 0) // code length: one opcode + operand
+	buf = append(buf, zzverif.Bytes("opcode", 1)...)
+	// the operand is one of the boundary values (the decompiler prints and re-reads
+	// operands as decimal text, which the engine only follows for concrete numbers)
+	op := [][]byte{{0, 0, 0, 0}, {1, 0, 0, 0}, {2, 0, 0, 0}, {3, 0, 0, 0}, {255, 0, 0, 0}, {0xff, 0xff, 0xff, 0x7f}, {0xff, 0xff, 0xff, 0xff}}[zzverif.Choice("operand", 7)]
+	buf = append(buf, op...)
+	zzverif.Obligation("Decompile returns")
+	out, err := NewDecompiler().Decompile(buf)
+	zzverif.Assert((out == nil) != (err == nil), "decompile-returns-both-or-neither")
+	zzverif.Reach("decompile-one")
+}
